@@ -10,7 +10,6 @@ package main
 // R3 aggregation over members (full range; + from 0, min from +Inf).
 
 import (
-	"go/constant"
 	"go/types"
 	"math/big"
 	"sort"
@@ -93,14 +92,6 @@ func (p poly) mul(q poly) poly {
 	return out
 }
 func (p poly) equal(q poly) bool { return len(p.add(q, -1)) == 0 }
-func constRat(v constant.Value) (*big.Rat, bool) {
-	switch v.Kind() {
-	case constant.Int, constant.Float:
-		r, ok := new(big.Rat).SetString(v.ExactString())
-		return r, ok
-	}
-	return nil, false
-}
 
 func isFloatT(t types.Type) bool {
 	if t == nil {
